@@ -111,5 +111,72 @@ CHECKS["C12"] = {
     "thorough": U_REDUCE_Q[3:] + U_REDUCE_T + U_NOTIFY_Q[1:] + U_NOTIFY_T + U_EFFECT_T + U_EFFECT_C2,
 }
 
+def _g(n, what, bounds, **kw):
+    return H("g_glue::" + n, what, bounds, timeout_s=kw.pop("timeout_s", 400), **kw)
+
+_W_G = "REAL reducer loop closure + channel wrapper + dispatch (all three entry points) / close / stop glue, phases do_reduce/do_effect/do_notify replaced by summaries with unconstrained symbolic results (any need_dispatch, any new state); oracle: FIFO, state threading, unconditional write-back before the effect phase, notify iff need, phase order and context, barrier and finality of stop(), counters"
+G_FOLD_Q = [_g("g_fold_k2", _W_G, "2 symbolic actions, capacity 3, schedule: dispatch*; stop() (loop runs at the join)"), _g("g_fold_k3", _W_G, "3 symbolic actions, capacity 4, same schedule"), _g("g_fold_k2_close_stop", _W_G, "2 actions; schedule: dispatch*; close(); loop; stop()"), _g("g_fold_k2_close_dispatch_stop", _W_G, "2 actions; close(); dispatch (rejected); stop()")]
+G_FOLD_T = [_g("g_fold_k1", _W_G, "1 action")]
+G_DROP_Q = [_g("g_fold_k2_drop", _W_G + "; drop(DroppableStore) in place of stop(), other clones kept", "2 actions"), _g("g_fold_k0_drop", _W_G + "; drop of an idle store", "0 actions")]
+G_DROP_T = [_g("g_fold_k3_drop", _W_G + "; drop(DroppableStore)", "3 actions")]
+G_TWIN = [_g("twin_g_glue", "vacuity twin: deliberately wrong glue oracles must each be refuted", "", role="twin")]
+
+_SEQ_ASSUME = "deferred schedules only in this tier of the loop-level harnesses: client calls are atomic and the reducer loop runs when the joiner waits (dispatch*; stop()) or between close() and stop(); placements of client calls at scheduling points inside the loop are the S- harnesses where registered"
+_COMPOSE = "composition (argument, not tool-checked): phases verified against their reference models in the U- harnesses + glue verified with unconstrained phase summaries in the G- harnesses => the property for the real pipeline"
+
+CHECKS["C01"] = {
+    "bounds": "reducer chain: 1..3 reducers, one action, symbolic state/action/Dispatch-Keep answers (U-reduce); loop: 1..3 symbolic actions with unconstrained per-action phase results, capacity k+1, all three dispatch entry points (G-fold)",
+    "outside": "panicking reducers; chains longer than 3; more than 3 queued actions; drop policies (C06); actions vetoed by middleware (C12)",
+    "assumptions": [_SEQ_ASSUME, _COMPOSE],
+    "quick": [U_REDUCE_Q[0], U_REDUCE_Q[1]] + G_FOLD_Q[:3] + U_PHASE_TWIN + G_TWIN,
+    "thorough": U_REDUCE_Q[2:] + U_REDUCE_T + G_FOLD_T + G_FOLD_Q[3:],
+}
+CHECKS["C03"] = {
+    "bounds": "1..3 direct subscribers, one notification with symbolic (state, action) (U-notify); need_dispatch from the last reducer's Dispatch/Keep (U-reduce); loop calls the notify phase iff need_dispatch with exactly the state just produced, 1..3 actions (G-fold)",
+    "outside": "chains mixing Dispatch and Keep for one action (unspecified by the property); more than 3 subscribers; subscribers registered or removed mid-run (C09)",
+    "assumptions": [_SEQ_ASSUME, _COMPOSE],
+    "quick": U_NOTIFY_Q + [U_REDUCE_Q[0]] + G_FOLD_Q[:2] + U_PHASE_TWIN + G_TWIN,
+    "thorough": U_NOTIFY_T + G_FOLD_T + G_FOLD_Q[2:],
+}
+CHECKS["C04"] = {
+    "bounds": "backlog of 0..3 accepted actions at stop(); stop() alone, close() then stop(), close() then dispatch then stop(); afterwards dispatch through StoreImpl::dispatch, Store::dispatch, Dispatcher::dispatch, repeated stop()/close()",
+    "outside": "the 3 s timeout path of shutdown_join_timeout (no clock in the model); two racing stop() calls; a dispatch racing with stop() from another thread (needs the S- harnesses); channeled subscribers (C10)",
+    "assumptions": [_SEQ_ASSUME, "shutdown_join* is modelled as: request recorded, then the harness runs the loop and every pending pool task before the caller continues"],
+    "quick": G_FOLD_Q + G_TWIN,
+    "thorough": G_FOLD_T + G_DROP_Q,
+}
+CHECKS["C07"] = {
+    "bounds": "per phase: hooks / reducers / subscribers in registration order and in the reducer context (U-reduce, U-notify, U-effect with <=3 of each); across phases and actions: reduce -> effect -> notify per action, no phase of action j+1 before the last of action j, 1..3 actions (G-fold)",
+    "outside": "physical overlap cannot occur in a sequentialised model: what is decided is order, context identity and completeness; components registered at run time from another thread (S- harnesses)",
+    "assumptions": [_SEQ_ASSUME, _COMPOSE],
+    "quick": [U_REDUCE_Q[0], U_NOTIFY_Q[0], U_EFFECT_Q[0]] + G_FOLD_Q[:2] + U_PHASE_TWIN + G_TWIN,
+    "thorough": U_REDUCE_T[:1] + U_NOTIFY_T + G_FOLD_T + G_FOLD_Q[2:],
+}
+CHECKS["C08"] = {
+    "bounds": "get_state() read from inside every phase of every action (summaries read it), 1..3 actions with arbitrary new states: value = state left by the previous action during the reduce phase, = this action's state during effect and notify phases and after stop()",
+    "outside": "reader threads running between scheduling points of the loop (S- harnesses); torn reads (excluded by the Mutex)",
+    "assumptions": [_SEQ_ASSUME],
+    "quick": G_FOLD_Q[:3] + G_TWIN,
+    "thorough": G_FOLD_T + G_FOLD_Q[3:],
+}
+CHECKS["C15"] = {
+    "bounds": "drop(DroppableStore::new(store.clone())) with a backlog of 0, 2 (quick) / 3 (thorough) accepted actions and another clone alive: same oracles as C04",
+    "outside": "concurrent drops of several DroppableStores over one handle; threads using the clones during the drop",
+    "assumptions": [_SEQ_ASSUME],
+    "quick": G_DROP_Q + G_TWIN,
+    "thorough": G_DROP_T,
+}
+CHECKS["C18"] = {
+    "bounds": "counter deltas of one phase call (U-reduce/U-notify/U-effect: action_reduced, middleware_executed, effect_issued, state_notified, subscriber_notified), of one channel send (action_dropped), and the balance after stop() for 1..3 actions under BlockOnFull (received, dropped, error_occurred)",
+    "outside": "time metrics and remaining_queue* (not in the statement); relaxed-memory effects on the atomics; monotonicity sampled concurrently (S- harnesses)",
+    "assumptions": [_SEQ_ASSUME],
+    "quick": [U_REDUCE_Q[0], U_NOTIFY_Q[0], U_EFFECT_Q[0]] + _CHAN_STEP[:1] + _CHAN_BURST[:2] + G_FOLD_Q[:2] + U_PHASE_TWIN + G_TWIN,
+    "thorough": U_REDUCE_T[:1] + U_EFFECT_T[:2] + _CHAN_STEP[1:] + _CHAN_RACE + G_FOLD_Q[2:],
+}
+# loop-level order for C02, capacity bound for C05
+CHECKS["C02"]["quick"] = CHECKS["C02"]["quick"] + G_FOLD_Q[:2] + G_TWIN
+CHECKS["C02"]["bounds"] += "; loop takes 1..3 queued actions in dispatch order through all three entry points (G-fold)"
+CHECKS["C05"]["quick"] = CHECKS["C05"]["quick"] + G_FOLD_Q[1:2] + G_TWIN
+
 HOOK_COMMITS = ["da8b80e", "8cd617e"]
 NOT_APPLICABLE = {}
